@@ -154,9 +154,11 @@ def probes(rng, sub, imax, jmax, n, H, N):
     ys = list(range((2 * j0 + 1) * QH // 2 + 1, (2 * j1 - 3) * QH // 2))
     pts = [(x, y) for x in xs for y in ys]
     rng.shuffle(pts)
-    pts = pts[:n]
     hmax = max(max(r) for r in H)
     zc = [0, 5, 10, 15, 20, 25, 30, 35, 40, 45, 50, 60, 70, 85, hmax + 20]
+    if n is None:        # small-scope exhaustive: every lattice point of the valid region x every depth of the ladder
+        return [p[0] for p in pts for _ in zc], [p[1] for p in pts for _ in zc], [zz for _ in pts for zz in zc]
+    pts = pts[:n]
     return [p[0] for p in pts], [p[1] for p in pts], [rng.choice(zc) for _ in pts]
 
 
@@ -256,7 +258,7 @@ def time_from_model(scn, rng):
                          handovers=len([s for s in inrun if s > 0]), one_per_file=len(cuts) == len(fs) - 1, model=True))
 
 
-def space_scenario(rng):
+def space_scenario(rng, exhaustive=False):
     """C02 family: time-constant field with pairwise distinct-ish node values, masks, bathymetry, subgrids, packing."""
     dt = rng.choice([30, 60])
     imax, jmax = rng.choice([(8, 7), (7, 9), (10, 6)])
@@ -279,7 +281,7 @@ def space_scenario(rng):
     eff = sub
     if sub:
         eff = [sub[0], sub[1] + (imax if sub[1] < 0 else 0), sub[2], sub[3] + (jmax if sub[3] < 0 else 0)]
-    xq, yq, z = probes(rng, eff, imax, jmax, 40, H, N)
+    xq, yq, z = probes(rng, eff, imax, jmax, None if exhaustive else 40, H, N)
     start, stop = (2 * dt, 0) if rev else (0, 2 * dt)
     cs = rng.choice(CS_CHOICES[N]) if N in CS_CHOICES else None        # other stretching curves than the uniform one
     return dict(kind="space", dt=dt, imax=imax, jmax=jmax, N=N, cs=cs, ftimes=[0, 2 * dt], cuts=[], start=start, stop=stop, rev=rev,
